@@ -32,6 +32,9 @@ def log(*a):
     print(*a, file=sys.stderr, flush=True)
 
 
+KNOWN_SITES = {'known_d5_hit_universe': 'eval_node', 'known_d8_hit_slot': 'eval_node'}
+
+
 def undecided(msg):
     log('UNDECIDED:', msg)
     sys.exit(2)
@@ -164,6 +167,11 @@ def main():
         for s in u.segments:
             if s['kind'] == 'vacuity' and s['name'] not in failing_twins:
                 vac_missing.append(f'{un}:{s["name"]}')
+        # the named obligations of the known findings (spec/known.rs) belong to the cache-hit path of eval_node
+        for d in r['diags']:
+            if d['owner_kind'] == 'lemma' and d['owner'] in KNOWN_SITES:
+                d['lemma'] = d['owner']
+                d['owner'], d['owner_kind'] = KNOWN_SITES[d['owner']], 'verify'
         real = [d for d in r['diags'] if d['owner_kind'] != 'vacuity']
         summ = r['summary'] or {}
         n_ver = summ.get('verified', 0)
